@@ -155,20 +155,11 @@ def run(ctx):
                 A[which] = True
     if enc:
         v = FnView.get(P, enc)
-        item = next_item(arg(1))
+        # every entry's element goes through the checked serialisation (an identity element fails it), whatever the form of
+        # the traversal: the part is the Ok payload of serialize(element) and sits on every completed iteration
+        _, pv = commitment_entry_parts(P)
         for which in ("hiding", "binding"):
-            elem = lambda t, which=which: mentions(t, lambda s: is_field(s, "SigningCommitments", which)
-                                                   and mentions(s[1], item))
-            m = succ_fact(lambda t, elem=elem: is_call(t, name="serialize") and elem(t[2][0]))
-            edges = {e for (e, fact) in v.facts if m(fact) == "pass"}
-            # every completed iteration passes the serialisation of this element, and Ok is only after the loop
-            lps = loop_report(P, enc)
-            good = False
-            for lp in lps:
-                _, back = body_reach(enc, lp, list(lp["some_targets"]), removed_edges=edges)
-                if not back and not any(c == "break" for _, c in lp["exits"]) and lp["iter_term"] == ("iter", ("arg", 1)):
-                    good = True
-            B[which] = good
+            B[which] = bool(pv) and pv["source"] == ("arg", 1) and any(entry_part(which)(p) for p in pv["parts"])
         # chain: every role reaches compute_group_commitment only after compute_binding_factor_list succeeded on the
         # same package, which encodes the list (binding_factor_preimages -> encode_group_commitments, both with `?`)
         chain = True
